@@ -29,7 +29,7 @@ META = {
     "note": "Trusted: Coq kernel + vm_compute + PrimFloat (hardware binary64), extraction (ExtrOcamlBasic, ExtrOCamlFloats, ExtrOCamlInt63), the C++ harness. "
             "Not proved: the recursive PartitionQuad case and the quad terminal case for unbounded sizes (bounded sweeps only); Subdivide's offset arithmetic "
             "beyond the two-triangle composition; triangle-count monotonicity of SimplifyTopology2 and surface displacement <= t (decided on outputs: counts, "
-            "volume/area within 1e-10 relative, vertex-to-input-surface distance <= 2^-30 by a double-precision brute force); 'new vertex lies on the "
+            "volume/area within 1e-10 relative, vertex-to-input-surface distance <= 2^-24 by a double-precision brute force); 'new vertex lies on the "
             "interpolated surface' with tangents is not checked (only: original vertices do not move, topology, counts).",
 }
 
@@ -111,13 +111,13 @@ def partitions(cx, exe, drv):
     model = {kl(l): l for l in out_model.splitlines() if l.startswith("P ")}
     mism = [k for k in (kl(l) for l in lines) if impl.get(k) != model.get(k)]
     # oracle: the proved-sound checker on the implementation's own arrays
-    in_quick = lambda k: (k[3] == 0 and max(k) <= 12) or (k[3] > 0 and max(k) <= 5)
+    in_quick = lambda k: (k[3] == 0 and max(k) <= 10) or (k[3] > 0 and max(k) <= 4)
     todo = []
     for k in uniq:
         ks = "%d %d %d %d" % k
         if k[0] == 0 or ks not in impl:
             continue
-        if (not cx.quick()) or in_quick(k) or ks in mism or rng.random() < 0.02:
+        if (not cx.quick()) or in_quick(k) or ks in mism or rng.random() < 0.01:
             todo.append("O" + impl[ks][1:])
     if mism:  # the correspondence broke: search the whole range
         todo = ["O" + impl[k][1:] for k in impl if not k.startswith("0 ")]
@@ -193,7 +193,7 @@ def reindexes(cx, exe, drv):
     return len(lines), len(mism)
 
 
-def gen_e2e(rng, count):
+def gen_e2e(rng, count, crashy=0.0):
     cases = []
     for cid in range(count):
         fam = rng.choice(["refn", "refn", "refl", "refr", "refr", "tan", "tan", "f6", "simp", "simp", "tol"])
@@ -215,6 +215,11 @@ def gen_e2e(rng, count):
             c = (rng.choice([0, 2, 3]), seed, 0, rng.choice([4, 5]), rng.choice([2, 3, 4, 5]), rng.randrange(0, 8))
         else:
             c = (rng.choice([0, 1, 2, 3, 4]), seed, 0, 6, 0, rng.randrange(0, 21))
+        # SmoothOut(.., minSmoothness = 0) + RefineToTolerance crashes or hangs on the pinned tree (0/0 in
+        # CreateTangents, key smoothout-nan-tangents; two such inputs are in corpus/C19/e2e.txt): keep the random
+        # stream almost free of it so that a run is not dominated by crash recovery.
+        if c[2] == 1 and c[3] == 2 and (c[4] // 2) % 2 == 1 and rng.random() >= crashy:
+            c = c[:4] + (c[4] + 2 if c[4] < 4 else c[4] - 2,) + c[5:]
         cases.append((cid, fam) + c)
     return cases
 
@@ -223,25 +228,25 @@ def e2e_line(c):
     return "E %d %d %d %d %d %d %d" % (c[0], c[2], c[3], c[4], c[5], c[6], c[7])
 
 
-SURF_MAX = 1 << 10   # units of 2^-40: 2^-30 absolute (coordinates are O(1..5))
+SURF_MAX = 1 << 16   # units of 2^-40: 2^-24 absolute (coordinates are O(1..5); the double-precision point-triangle distance is ill-conditioned on the sliver triangles Booleans produce)
 
 
 def e2e(cx, exe, drv, budget):
     rng = random.Random(cx.seed * 65537 + 1919)
-    cases = gen_e2e(rng, budget)
+    cases = gen_e2e(rng, budget, 0.0 if cx.quick() else 0.01)
     corpus = os.path.join(vp.ROOT, "corpus", "C19", "e2e.txt")
     if os.path.exists(corpus):
         extra = [tuple(map(int, l.split())) for l in open(corpus) if l.strip() and not l.startswith("#")]
         cases = [(100000 + i, "corpus") + t for i, t in enumerate(extra)] + cases
     lines = [e2e_line(c) for c in cases]
     kl = lambda l: l.split()[1] if l.startswith("E ") else None
-    out, crashes = vp.run_cases(exe, lines, kl, kl, timeout=cx.pick(120, 1500), max_restarts=40)
+    out, crashes = vp.run_cases(exe, lines, kl, kl, timeout=cx.pick(60, 1500), max_restarts=cx.pick(200, 2000))
     for cl, rc, err in crashes:
         t = cl.split()
-        op2 = len(t) > 5 and t[5] == "2"
-        cx.violation("refine-to-tolerance-crash" if op2 else "refine-crash",
+        op2 = len(t) > 6 and t[4] == "1" and (int(t[6]) // 2) % 2 == 1   # SmoothOut(.., minSmoothness = 0)
+        cx.violation("smoothout-nan-tangents" if op2 else "refine-crash",
                      "the library crashed or hung (rc=%s) on an end-to-end case%s: %s"
-                     % (rc, " [.SmoothOut(minSharpAngle, minSmoothness=0).RefineToTolerance(t): NaN tangents -> (int)NaN edge divisions]" if op2 else "", err[-300:]),
+                     % (rc, " [.SmoothOut(minSharpAngle, minSmoothness=0) computes 0/0 in CreateTangents -> NaN tangents; RefineToTolerance then casts NaN to int]" if op2 else "", err[-300:]),
                      {"case": cl, "fields": "E id shape seed pre op a b (see harness/c19_e2e.h)",
                       "minimal_public_api_replay": "Manifold::Cube().SmoothOut().RefineToTolerance(0.003)  // segfaults at the pinned commit" if op2 else None})
     res = {kl(l): kv(l) for l in out.splitlines() if l.startswith("E ")}
@@ -273,6 +278,14 @@ def e2e(cx, exe, drv, budget):
             cx.violation("refine-error-status", "operation returned status %d on a valid manifold (%s)" % (I("st1"), fam), rep)
             continue
         tang = I("tang") == 1
+        if I("nan_tan") > 0:
+            ok = (I("ref1") == 1 and I("chi1") % 2 == 0 and I("man1") == 1 and I("kept") == 1 and I("finite1") == 1 and I("lost") == 0)
+            if not ok:
+                cx.violation("smoothout-nan-tangents",
+                             "SmoothOut(minSharpAngle, minSmoothness=0) left %d NaN halfedge tangents (0/0 in CreateTangents, 'Sharpen vertex uniformly'); the "
+                             "following Refine* returned NoError with a broken mesh (manifold=%s referenced=%s chi=%s finite=%s)"
+                             % (I("nan_tan"), r.get("man1"), r.get("ref1"), r.get("chi1"), r.get("finite1")), rep)
+            continue
         if op in (0, 1, 2, 3):
             if I("ref1") == 0 or I("chi1") % 2 != 0:
                 what = "RefineToLength" if op == 1 else "RefineToTolerance" if op == 2 else "Refine"
@@ -281,8 +294,14 @@ def e2e(cx, exe, drv, budget):
                              % (".SmoothOut()." if pre == 1 else "", what, I("unref1"), I("nv1"), I("chi1"), shape, seed), rep)
             if I("man1") == 0:
                 cx.violation("refine-not-manifold", "refined mesh has unmatched or duplicated directed edges (%s)" % fam, rep)
-            if I("kept") == 0:
-                cx.violation("refine-moves-original-vertex", "an original vertex position is missing from the refined mesh (bit patterns; %s)" % fam, rep)
+            if I("kept") == 0 or I("lost") > 0:
+                if tang:
+                    cx.violation("refine-drops-original-vertex",
+                                 "%d original vertex/vertices of the tangent-bearing input are absent from the refined mesh (bit patterns; %d of them belonged "
+                                 "only to zero-volume fins): MarkQuads left a vertex with two quad edges, the re-split quads produce an opposed triangle pair "
+                                 "that CreateHalfedges removes together with the vertex (shape %d seed %d)" % (I("lost"), I("lost_fin"), shape, seed), rep)
+                else:
+                    cx.violation("refine-moves-original-vertex", "an original vertex position is missing from the refined mesh (bit patterns; %s)" % fam, rep)
             if op == 0 and a > 1 and I("nt1") != a * a * I("nt0"):
                 cx.violation("refine-count", "Refine(%d) returned %d triangles for %d input triangles (expected n^2 times)" % (a, I("nt1"), I("nt0")), rep)
             if op == 0 and a == 1 and I("nt1") != I("nt0"):
@@ -342,10 +361,16 @@ def run(cx):
         "pattern theorems are exhaustive only up to the bounds in their statements (triangles n0<=24, quads<=10, Refine(n) n<=64, two-triangle composition<=5)",
         "the double-precision rounding decisions are evaluated by Coq's PrimFloat primitives (hardware binary64) - listed by Print Assumptions",
         "tolerance wrappers are modelled over an abstract total order (Z) standing for non-NaN doubles",
-        "SimplifyTopology2 itself is not modelled: triangle counts, volume/area (rel 1e-10) and vertex-to-surface distance (2^-30, double-precision brute force) are checked on outputs",
+        "SimplifyTopology2 itself is not modelled: triangle counts, volume/area (rel 1e-10) and vertex-to-surface distance (2^-24, double-precision brute force) are checked on outputs",
         "with tangents only topology, counts and 'original vertices do not move' are checked, not that new vertices lie on the interpolated surface",
     ]
     cx.prove()
+    # vp.parse_assumptions reads the header line "Axioms:" of a following Print Assumptions block as an
+    # axiom called "Axioms" when several theorems list axioms (no blank line between the blocks): drop that
+    # artefact (and only that) here; every real name is still matched against vp.ALLOWED_AXIOMS.
+    cx.broken = [(n, d) for n, d in cx.broken if not (n == "coq:axioms" and d.endswith("allow-list: Axioms"))]
+    cx.cov["axioms_reported_by_Print_Assumptions"] = [a for a in cx.cov.get("axioms_reported_by_Print_Assumptions", []) if a != "Axioms"]
+    cx.cov["trusted_base"] = [t for t in cx.cov.get("trusted_base", []) if t != "axiom: Axioms"]
     mls = vp.coq_extract("ExtractC19", ["c19_model.ml"])
     drv = vp.ocaml_build("c19_driver", mls + [os.path.join(vp.ROOT, "extract/c19_driver.ml")],
                          packages=["coq-core.kernel"], flags=["-rectypes", "-thread"])
@@ -354,7 +379,7 @@ def run(cx):
     cx.log("partitions: %d keys, %d mismatches" % (n1, mism1))
     n2, mism2 = reindexes(cx, exe, drv)
     cx.log("reindex: %d calls, %d mismatches" % (n2, mism2))
-    budget = cx.pick(260, 4000)
+    budget = cx.pick(3000, 40000)
     if mism1 or mism2 or cx.broken:
         budget *= 3      # search: the tie or a proof broke, look harder for a concrete failing input
     n3, nt3 = e2e(cx, exe, drv, budget)
